@@ -21,23 +21,23 @@ theorem accepts_iff_langFrom' (d : Dfa) (w : Word) : d.Accepts w ↔ d.LangFrom 
 case-insensitivity flag is off -/
 structure PlainPrintCI (cfg : Config) : Prop where
   rep : cfg.rep = false
-  esc : cfg.esc = false
   sur : cfg.sur = false
   verb : cfg.verb = false
   noStart : cfg.noStart = false
   noEnd : cfg.noEnd = false
   color : cfg.color = false
 
-/-- … and case-sensitive -/
+/-- … and case-sensitive, without `-e` -/
 structure PlainPrint (cfg : Config) : Prop extends PlainPrintCI cfg where
   ci : cfg.ci = false
+  esc : cfg.esc = false
 
-theorem plainPrint_cfgPlain (cap : Bool) : PlainPrint (cfgPlain cap) := ⟨⟨rfl, rfl, rfl, rfl, rfl, rfl, rfl⟩, rfl⟩
+theorem plainPrint_cfgPlain (cap : Bool) : PlainPrint (cfgPlain cap false) := ⟨⟨rfl, rfl, rfl, rfl, rfl, rfl⟩, rfl, rfl⟩
 
 theorem fmtRegExp_plainCI_eq (cfg : Config) (h : PlainPrintCI cfg) (e : Expr) :
-    fmtRegExp cfg e = ciPrefix cfg.ci ++ fmtRegExp (cfgPlain cfg.cap) e := by
-  have hb : bodyText cfg e = bodyText (cfgPlain cfg.cap) e :=
-    bodyText_congr (c1 := cfg) (c2 := cfgPlain cfg.cap) ⟨rfl, h.esc, h.sur, h.verb, h.color⟩ e
+    fmtRegExp cfg e = ciPrefix cfg.ci ++ fmtRegExp (cfgPlain cfg.cap cfg.esc) e := by
+  have hb : bodyText cfg e = bodyText (cfgPlain cfg.cap cfg.esc) e :=
+    bodyText_congr (c1 := cfg) (c2 := cfgPlain cfg.cap cfg.esc) ⟨rfl, rfl, h.sur, h.verb, h.color⟩ e
   cases hci : cfg.ci with
   | false =>
     simp only [fmtRegExp, hci, h.verb, h.noStart, h.noEnd, h.color, cfgPlain, hb, Bool.and_false, Bool.false_eq_true,
@@ -50,7 +50,7 @@ theorem fmtRegExp_plainCI_eq (cfg : Config) (h : PlainPrintCI cfg) (e : Expr) :
     exact hR _
 
 theorem fmtRegExp_plain_eq (cfg : Config) (h : PlainPrint cfg) (e : Expr) :
-    fmtRegExp cfg e = fmtRegExp (cfgPlain cfg.cap) e := by
+    fmtRegExp cfg e = fmtRegExp (cfgPlain cfg.cap cfg.esc) e := by
   rw [fmtRegExp_plainCI_eq cfg h.toPlainPrintCI, h.ci]; rfl
 
 theorem plainBs_atoms_nil (c : Cluster) (h : PlainBs c) (ha : atomsOf c = []) : c = [] := by
@@ -108,8 +108,8 @@ theorem classes_exact_ci (cfg : Config) (hp : PlainPrintCI cfg) (env : Env) (ws 
   subst h
   simp only []
   -- the expression computed from the minimised automaton
-  have hof : Expr.ofDfa cfg m = Expr.ofDfa (cfgPlain cfg.cap) m := ofDfa_congr (c1 := cfg) (c2 := cfgPlain cfg.cap) hp.esc m
-  have hwf := ofDfa_wf cfg.cap m hlab hdfs hacyc
+  have hof : Expr.ofDfa cfg m = Expr.ofDfa (cfgPlain cfg.cap cfg.esc) m := ofDfa_congr (c1 := cfg) (c2 := cfgPlain cfg.cap cfg.esc) rfl m
+  have hwf := ofDfa_wf cfg.cap cfg.esc m hlab hdfs hacyc
   have hlang := elimination_lang_acyclic cfg m (labelsBs_plain m hlab) hN hdfs hacyc
   obtain ⟨t0, ht0, ht0ne⟩ := hne
   have hmem0 : t0 ∈ sortCases ws1 := (sortCases_mem' ws1 t0).mpr ht0
@@ -136,7 +136,7 @@ theorem classes_exact_ci (cfg : Config) (hp : PlainPrintCI cfg) (env : Env) (ws 
       rw [← accepts_iff_langFrom', hacc, he] at this
       exact this.mpr hwitness
   rw [fmtRegExp_plainCI_eq cfg hp, hof]
-  obtain ⟨P, hparse, hmatch⟩ := printed_accepts_ci cfg.ci cfg.cap _ hwf s hs
+  obtain ⟨P, hparse, hmatch⟩ := printed_accepts_ci cfg.ci cfg.cap cfg.esc _ hwf s hs
   refine ⟨P, hparse, ?_⟩
   rw [hmatch]
   simp only [Expr.strLang, ← hof, hlangE]
@@ -171,9 +171,36 @@ theorem classes_exact (cfg : Config) (hp : PlainPrint cfg) (env : Env) (ws : Lis
   rw [hst, hp.ci] at this
   exact this
 
+/-- the same settings with `-e` switched on / off -/
+def withEsc (cfg : Config) (b : Bool) : Config := { cfg with esc := b }
+
+theorem plainPrintCI_withEsc (cfg : Config) (h : PlainPrintCI cfg) (b : Bool) : PlainPrintCI (withEsc cfg b) :=
+  ⟨h.rep, h.sur, h.verb, h.noStart, h.noEnd, h.color⟩
+
+/-- **C11 / C06 for the model, all inputs: `-e` is notation only.** For every subset of the class options, with or
+without capturing groups and the case-insensitive option, everything else at its default: the build with `\u{…}`
+escapes and the build without are both accepted by the model of `Regex::new`, and the two compiled patterns match
+exactly the same strings of scalar values in full — decoding the escapes gives back the language -/
+theorem esc_same_language (cfg : Config) (hp : PlainPrintCI cfg) (env : Env) (ws : List Str) (stE st0 : Stages)
+    (hE : regExpFrom (withEsc cfg true) env ws = .ok stE) (h0 : regExpFrom (withEsc cfg false) env ws = .ok st0)
+    (hseg : ∀ w ∈ storedCases cfg env ws, SegOK env w) (hne : ∃ t ∈ storedCases cfg env ws, t ≠ [])
+    (s : Str) (hs : ∀ c ∈ s, Scalar c) :
+    ∃ PE P0, Spec.parse (fmtRegExp (withEsc cfg true) stE.finalAst) = some (⟨cfg.ci, false⟩, PE) ∧
+      Spec.parse (fmtRegExp (withEsc cfg false) st0.finalAst) = some (⟨cfg.ci, false⟩, P0) ∧
+      Spec.fullMatch cfg.ci PE s = Spec.fullMatch cfg.ci P0 s := by
+  obtain ⟨PE, pE, mE⟩ := classes_exact_ci (withEsc cfg true) (plainPrintCI_withEsc cfg hp true) env ws stE hE hseg hne s hs
+  obtain ⟨P0, p0, m0⟩ := classes_exact_ci (withEsc cfg false) (plainPrintCI_withEsc cfg hp false) env ws st0 h0 hseg hne s hs
+  refine ⟨PE, P0, pE, p0, ?_⟩
+  have hiff : Spec.fullMatch cfg.ci PE s = true ↔ Spec.fullMatch cfg.ci P0 s = true := mE.trans m0.symm
+  cases h : Spec.fullMatch cfg.ci PE s <;> cases h' : Spec.fullMatch cfg.ci P0 s
+  · rfl
+  · exact absurd (hiff.mpr h') (by simp [h])
+  · exact absurd (hiff.mp h) (by simp [h'])
+  · rfl
+
 /-- without class options every code point stays itself -/
-theorem convAtom_plain (cap : Bool) (c : Nat) : convAtom (cfgPlain cap) c = Atom.chr c := by
-  have : convChar (cfgPlain cap) c = [c] := convChar_noflags (cfgPlain cap) ⟨rfl, rfl, rfl, rfl, rfl, rfl⟩ c
+theorem convAtom_plain (cap : Bool) (c : Nat) : convAtom (cfgPlain cap false) c = Atom.chr c := by
+  have : convChar (cfgPlain cap false) c = [c] := convChar_noflags (cfgPlain cap false) ⟨rfl, rfl, rfl, rfl, rfl, rfl⟩ c
   simp [convAtom, this]
 
 theorem atomsDen_chars (t s : Str) : atomsDen false (t.map Atom.chr) s ↔ s = t := by
@@ -187,14 +214,14 @@ theorem atomsDen_chars (t s : Str) : atomsDen false (t.map Atom.chr) s ↔ s = t
 
 /-- **C02 for the model, all inputs** (the case of `classes_exact` without class options) -/
 theorem default_exact (cap : Bool) (env : Env) (ws : List Str) (st : Stages)
-    (h : regExpFrom (cfgPlain cap) env ws = .ok st) (hseg : ∀ w ∈ ws, SegOK env w) (hne : ∃ t ∈ ws, t ≠ [])
+    (h : regExpFrom (cfgPlain cap false) env ws = .ok st) (hseg : ∀ w ∈ ws, SegOK env w) (hne : ∃ t ∈ ws, t ≠ [])
     (s : Str) (hs : ∀ c ∈ s, Scalar c) :
-    ∃ P, Spec.parse (fmtRegExp (cfgPlain cap) st.finalAst) = some (⟨false, false⟩, P) ∧
+    ∃ P, Spec.parse (fmtRegExp (cfgPlain cap false) st.finalAst) = some (⟨false, false⟩, P) ∧
       (Spec.fullMatch false P s = true ↔ (s ∈ ws ∧ s ≠ [])) := by
-  obtain ⟨P, hP, hm⟩ := classes_exact (cfgPlain cap) (plainPrint_cfgPlain cap) env ws st h hseg hne s hs
+  obtain ⟨P, hP, hm⟩ := classes_exact (cfgPlain cap false) (plainPrint_cfgPlain cap) env ws st h hseg hne s hs
   refine ⟨P, hP, ?_⟩
   rw [hm]
-  have hmap : ∀ t : Str, t.map (convAtom (cfgPlain cap)) = t.map Atom.chr :=
+  have hmap : ∀ t : Str, t.map (convAtom (cfgPlain cap false)) = t.map Atom.chr :=
     fun t => List.map_congr_left (fun c _ => convAtom_plain cap c)
   constructor
   · rintro ⟨t, ht, htne, hd⟩
@@ -233,14 +260,14 @@ theorem classes_valid (cfg : Config) (hp : PlainPrint cfg) (env : Env) (ws : Lis
   simp only [] at h
   injection h with h
   subst h
-  have hof : Expr.ofDfa cfg m = Expr.ofDfa (cfgPlain cfg.cap) m := ofDfa_congr (c1 := cfg) (c2 := cfgPlain cfg.cap) hp.esc m
+  have hof : Expr.ofDfa cfg m = Expr.ofDfa (cfgPlain cfg.cap cfg.esc) m := ofDfa_congr (c1 := cfg) (c2 := cfgPlain cfg.cap cfg.esc) rfl m
   simp only []
   rw [fmtRegExp_plain_eq cfg hp, hof]
-  exact ⟨_, parse_printed cfg.cap _ (ofDfa_wf cfg.cap m hlab hdfs hacyc)⟩
+  exact ⟨_, parse_printed cfg.cap cfg.esc _ (ofDfa_wf cfg.cap cfg.esc m hlab hdfs hacyc)⟩
 
 theorem default_valid (cap : Bool) (env : Env) (ws : List Str) (st : Stages)
-    (h : regExpFrom (cfgPlain cap) env ws = .ok st) (hseg : ∀ w ∈ ws, SegOK env w) :
-    ∃ P, Spec.parse (fmtRegExp (cfgPlain cap) st.finalAst) = some (⟨false, false⟩, P) :=
-  classes_valid (cfgPlain cap) (plainPrint_cfgPlain cap) env ws st h hseg
+    (h : regExpFrom (cfgPlain cap false) env ws = .ok st) (hseg : ∀ w ∈ ws, SegOK env w) :
+    ∃ P, Spec.parse (fmtRegExp (cfgPlain cap false) st.finalAst) = some (⟨false, false⟩, P) :=
+  classes_valid (cfgPlain cap false) (plainPrint_cfgPlain cap) env ws st h hseg
 
 end Grexv
